@@ -615,6 +615,12 @@ func (oa *ordAnalysis) confined(fn *ssa.Function, seen map[*ssa.Function]bool) (
 			case *ssa.Lookup:
 				v = x.X
 				continue
+			case *ssa.IndexAddr:
+				v = x.X // element of a slice: as confined as the slice
+				continue
+			case *ssa.Slice:
+				v = x.X
+				continue
 			case *ssa.Call:
 				return true
 			case *ssa.Phi:
@@ -793,6 +799,11 @@ func (oa *ordAnalysis) value(fn *ssa.Function, v ssa.Value, origin string) {
 		case *ssa.MakeInterface:
 			oa.value(fn, x, origin)
 		case *ssa.Slice:
+			if x.X == v && (x.Low != nil || x.High != nil) {
+				// s[:n] / s[n:] of a slice whose order is not fixed yet: which elements survive depends on that order
+				ru.Bad(key, w.IPos(x), origin+": a sub-range of an unordered slice is taken by position before it is sorted (which elements it holds depends on map order)")
+				continue
+			}
 			oa.value(fn, x, origin)
 		case *ssa.Call:
 			n := calleeName(x)
@@ -1031,7 +1042,45 @@ func rC20SortKeys(w *World, r *Report) {
 				})
 				good = cmp
 			}
-			ru.Check(good, "sort.Slice/"+short(fn), w.IPos(c), "option.Sort: by Name", "an unstable sort whose key uniqueness is not established")
+			// a comparison of the whole elements of a slice of strings / numbers (s[i] < s[j]) is a total order on the
+			// values themselves: equal elements are indistinguishable, so stability does not matter
+			if !good {
+				if mc, ok := c.Common().Args[1].(*ssa.MakeClosure); ok {
+					less, _ := mc.Fn.(*ssa.Function)
+					arg := c.Common().Args[0]
+					if mi, ok := arg.(*ssa.MakeInterface); ok {
+						arg = mi.X
+					}
+					if st, ok := arg.Type().Underlying().(*types.Slice); ok && less != nil && len(less.Params) == 2 {
+						if _, basic := st.Elem().Underlying().(*types.Basic); basic {
+							whole, others := false, false
+							eachInstr(less, func(in ssa.Instruction) {
+								bo, ok := in.(*ssa.BinOp)
+								if !ok {
+									return
+								}
+								elemOf := func(v ssa.Value, idx ssa.Value) bool {
+									u, ok := v.(*ssa.UnOp)
+									if !ok || u.Op != token.MUL {
+										return false
+									}
+									ia, ok := u.X.(*ssa.IndexAddr)
+									return ok && ia.Index == idx && isFreeVarLoadOrSelf(ia.X)
+								}
+								if (bo.Op == token.LSS || bo.Op == token.GTR) && elemOf(bo.X, less.Params[0]) && elemOf(bo.Y, less.Params[1]) {
+									whole = true
+								} else {
+									others = true
+								}
+							})
+							if whole && !others && len(mc.Bindings) == 1 {
+								good = true
+							}
+						}
+					}
+				}
+			}
+			ru.Check(good, "sort.Slice/"+short(fn), w.IPos(c), "unique keys (option.Sort: by Name) or a total order on whole elements", "an unstable sort whose key uniqueness is not established")
 		}
 	}
 	if n == 0 {
@@ -1069,6 +1118,18 @@ func rC20SortKeys(w *World, r *Report) {
 		}
 		ru.Check(okFilter, "helpOutput/one-entry-per-record", w.Pos(ho.Pos()), "append only under key == option.Name", "the option list can contain a record more than once (aliases): sort order among equal names is unspecified")
 	}
+}
+
+// isFreeVarLoadOrSelf: v is a captured variable (or a load of one): the slice the less function closes over.
+func isFreeVarLoadOrSelf(v ssa.Value) bool {
+	if _, ok := v.(*ssa.FreeVar); ok {
+		return true
+	}
+	if u, ok := v.(*ssa.UnOp); ok && u.Op == token.MUL {
+		_, ok := u.X.(*ssa.FreeVar)
+		return ok
+	}
+	return false
 }
 
 // ------------------------------------------------------------------ R20.4
